@@ -396,7 +396,7 @@ static void run_op(CalWorld &w, const Op &op, const Plan &plan)
     }
     if (k == "delparam") {
 	int pi = resolve_param(w, op.I(0));
-	int h = pi < 0 ? (int)(-op.I(0) - 1) % 3 : w.params[(size_t)pi].handle;
+	int h = pi < 0 ? (int)(((-op.I(0) - 1) % 3 + 3) % 3) : w.params[(size_t)pi].handle;
 	bool live = pi < 0 || w.params[(size_t)pi].live;
 	int rc;
 	{
